@@ -113,6 +113,8 @@ PB = {
  "C14": "; tree-mutation inventory over MIR (R8: stores into tree nodes and `&mut` accesses to owned parts of the tree in everything reachable from validation::validate, result of the per-file closure carries the stored tree); plumbing rule PB (C12's H1, H2, H3, H5, H7 re-evaluated)",
  "C02": "; tree-mutation inventory over MIR (C14 R8 re-evaluated: validation returns the tree the actions built, only Type.kind / Method.oneway written); plumbing rule PB (C12's H1, H2, H3, H5, H7 re-evaluated)",
 }
+EQ_PROPS = ("C02", "C04", "C05", "C06", "C07", "C08", "C09", "C10", "C11", "C13", "C14", "C15", "C16", "C17")
+EQ = "; rule EQ: expansion-origin check on the MIR bodies of PartialEq / PartialOrd / Ord / Hash impls of crate types (must be derive expansions: the rules read comparisons structurally)"
 checks = []
 na = []
 for p in props:
@@ -130,7 +132,7 @@ for p in props:
         "engine": "static-rules",
         "level_claimed": {"category": "other", "text": c["text"], "design_ref": c["design"]},
         "level_note": c["note"],
-        "technique": c["technique"] + PB.get(pid, PB["*"]),
+        "technique": c["technique"] + PB.get(pid, PB["*"]) + (EQ if pid in EQ_PROPS else ""),
     })
 m = {
  "version": 1,
